@@ -298,3 +298,41 @@ package main
 //@ scan[authonly-handler-behind-session-chain] method-value-wrapped (*OAuthProxy).AuthOnly ThenFunc sessionChain main.(*OAuthProxy).buildServeMux
 //@ scan[userinfo-handler-behind-session-chain] method-value-wrapped (*OAuthProxy).UserInfo ThenFunc sessionChain main.(*OAuthProxy).buildProxySubrouter
 //@ scan[signout-handler-behind-session-chain] method-value-wrapped (*OAuthProxy).SignOut ThenFunc sessionChain main.(*OAuthProxy).buildProxySubrouter
+
+// ---------------------------------------------------------------- wiring: the proxy is assembled from the options it was given
+// (checked on the finished struct at the point it is handed to buildServeMux; after that only the two scan-listed
+// functions may write OAuthProxy fields)
+//@ func NewOAuthProxy
+//@ shallow
+//@ prop C01 C15 C16 C17 C06 C07 C09
+//@ at call buildServeMux assert[session-store-and-loaders-wired] recv(buildServeMux).sessionStore == ret0(NewSessionStore)
+//@     && arg(buildSessionChain, 2) == ret0(NewSessionStore) && arg(buildSessionChain, 1) == ret0(NewProvider)
+//@     && recv(buildServeMux).sessionChain == ret(buildSessionChain) && recv(buildServeMux).provider == ret0(NewProvider)
+//@     && arg(buildSessionChain, 3) == recv(buildServeMux).basicAuthValidator
+//@ at call buildServeMux assert[validator-and-cookie-options-wired] recv(buildServeMux).Validator == validator
+//@     && recv(buildServeMux).CookieOptions == &opts.Cookie
+//@ at call buildServeMux assert[bypass-rules-wired] recv(buildServeMux).trustedIPs == ret(NewNetSet)
+//@     && recv(buildServeMux).allowedRoutes == ret0(buildRoutesAllowlist) && recv(buildServeMux).apiRoutes == ret0(buildAPIRoutes)
+//@ at call buildServeMux assert[preflight-bypass-from-its-option] recv(buildServeMux).skipAuthPreflight == opts.SkipAuthPreflight
+//@ at call buildServeMux assert[redirect-validation-wired] recv(buildServeMux).redirectValidator == ret(NewValidator)
+//@     && arg(NewAppDirector, 0).Validator == ret(NewValidator)
+//@     && recv(buildServeMux).appDirector == ret(NewAppDirector)
+//@ at call buildServeMux assert[header-and-preauth-chains-wired] recv(buildServeMux).headersChain == ret0(buildHeadersChain)
+//@     && recv(buildServeMux).preAuthChain == ret0(buildPreAuthChain) && recv(buildServeMux).upstreamProxy == ret0(NewProxy)
+//@ at call NewValidator assert[redirect-validator-gets-the-whitelist-option] arg(NewValidator, 0) == opts.WhitelistDomains
+//@ at call NewHTPasswdValidator assert[htpasswd-validator-only-from-the-configured-file] opts.HtpasswdFile != ""
+//@     && arg(NewHTPasswdValidator, 0) == opts.HtpasswdFile
+//@ at call buildServeMux assert[basic-auth-only-with-an-htpasswd-file] (!called(NewHTPasswdValidator) ==> recv(buildServeMux).basicAuthValidator == nil)
+//@     && (called(NewHTPasswdValidator) ==> recv(buildServeMux).basicAuthValidator == ret0(NewHTPasswdValidator))
+//@ ensures[errors-produce-no-proxy] ret1 != nil ==> ret0 == nil
+//@ ensures[result-is-the-assembled-proxy] ret1 == nil ==> ret0 == recv(buildServeMux)
+
+// ---------------------------------------------------------------- C07: the headers chain is the two injectors built from the options
+//@ func buildHeadersChain
+//@ prop C07
+//@ at call NewRequestHeaderInjector assert[request-injector-from-the-request-header-option] arg(NewRequestHeaderInjector, 0) == opts.InjectRequestHeaders
+//@ at call NewResponseHeaderInjector assert[response-injector-from-the-response-header-option] arg(NewResponseHeaderInjector, 0) == opts.InjectResponseHeaders
+//@ at call New assert[chain-is-request-then-response-injector] len(arg(New, 0)) == 2 && arg(New, 0)[0] == ret0(NewRequestHeaderInjector)
+//@     && arg(New, 0)[1] == ret0(NewResponseHeaderInjector)
+//@ ensures[no-error-means-both-injectors] ret1 == nil ==> called(New) && ret0 == ret(New) && ret1(NewRequestHeaderInjector) == nil
+//@     && ret1(NewResponseHeaderInjector) == nil
